@@ -67,6 +67,16 @@ func (s *Session) VerifyAndUpdate(msg *Message) bool {
 }
 
 func (s *Session) verifyHash(msg *Message) bool {
+	// an unsigned message (the peer may leave the signature out) or a last-seen entry the
+	// cache has no signature for cannot be verified
+	if msg.Signature == nil {
+		return false
+	}
+	for _, v := range msg.LastSeen {
+		if v == nil {
+			return false
+		}
+	}
 	h := sha256.New()
 	// 1
 	_ = binary.Write(h, binary.BigEndian, int32(1))
